@@ -32,7 +32,7 @@ class InitProbe(tc.TopoProbe):
 def prepare(case, given):
     b = tc.build(case, given=given, defaults_distinct=True)
     # glob sub-variables share one schema, hence one default
-    globs = {p['name'] for p in case['ports'] if p['kind'] == 'glob'}
+    globs = {p['name'] for p in case['ports'] if p['kind'] in ('glob', 'glob2')}
     for x in b.variables:
         if x['port'] in globs:
             b.default[tuple(x['node'])] = GLOB_DEFAULT
@@ -61,8 +61,11 @@ def check_build(rep, case, build, entry='engine'):
     old = get_probe(b)
     schema = old.parameters['schema']
     for name in globs:
-        for v in schema[name]['*']:
-            schema[name]['*'][v]['_default'] = GLOB_DEFAULT
+        sub = schema[name]['*']
+        if 'pool' in sub and '*' in sub['pool']:
+            sub = sub['pool']['*']
+        for v in sub:
+            sub[v]['_default'] = GLOB_DEFAULT
     # the process's own initial_state(): the initial value of every node, per variable
     own = {}
     for x in b.variables:
